@@ -155,6 +155,7 @@ def generate(rng, focus, tier="quick"):
         "exchange_start_offset": rng.choice([0, 0, 0, -30 * DAY, 30 * DAY, 400 * DAY]),
         "int_amounts": rng.random() < 0.2,
         "ctor_positional": rng.random() < 0.25,
+        "sym_mode": rng.choice([None] * 8 + ["enum", "np_str"]),
     }
     if cfg["int_quotes"]:
         cfg["np_quotes"] = False
@@ -407,6 +408,11 @@ def generate(rng, focus, tier="quick"):
             sh["held"].add((pid, a))
         elif r < 0.952:
             emit({"k": "setfee", "fee": rng.choice([{"kind": "zero"}, {"kind": "pct", "c": rng.choice([1e-3, 0.01]), "t": rng.choice([0.0, 5e-3])}])})
+        elif r < 0.96 and rng.random() < 0.5:
+            # a what-if clone of a live Position (copy / deepcopy / pickle), traded and re-marked on its own
+            emit({"k": "whatif", "pid": rng.choice(sh["pids"]), "asset": rng.choice(assets), "qty": _qty(rng),
+                  "how": rng.choice(["copy", "copy", "deepcopy", "pickle"]),
+                  "price": max(0.01, round(sh["quotes"][rng.choice(assets)] * 1.07, 4)), "comm": rng.choice([0.0, 1.0, 12.5])})
         elif r < 0.96:
             emit({"k": "broker2", "pid": rng.choice(pids_run), "funds": rng.choice([1e3, 1e5, 77.7]),
                   "asset": rng.choice(assets), "qty": _qty(rng)})
@@ -1364,6 +1370,32 @@ class Exec(object):
         ctx.probe("direct_price_mark")
         return False
 
+    def op_whatif(self, op):
+        """A copy of a live Position traded on its own: the original (and everything else) stays as it was."""
+        import copy
+        import pickle
+        from qstrader.broker.transaction.transaction import Transaction
+        s, m, ctx = self.s, self.m, self.ctx
+        pid, a = op["pid"], op["asset"]
+        if pid not in m.pfs or a not in m.pfs[pid].pos:
+            return False
+        try:
+            pobj = s.broker.portfolios[pid].pos_handler.positions[a]
+        except Exception:
+            return False
+        how = op["how"]
+        clone = (copy.copy(pobj) if how == "copy" else
+                 (copy.deepcopy(pobj) if how == "deepcopy" else pickle.loads(pickle.dumps(pobj))))
+        t_ = ts(max(m.now, m.pfs[pid].pos[a].clock or m.now))
+        try:
+            clone.transact(Transaction(a, int(op["qty"]), t_, float(op["price"]), "what-if", commission=float(op["comm"])))
+            clone.update_current_price(float(op["price"]) * 1.01, t_)
+        except Exception as e:
+            ctx.probe("whatif_clone_raised:" + type(e).__name__)
+        ctx.event("whatif", pid, a, how)
+        ctx.probe("position_cloned_and_traded_" + how)
+        return False
+
     def op_pftxn(self, op):
         """A legal transaction booked directly on the portfolio: arbitrary price and commission, order id
         possibly shared with the previous fill (one order worked in several clips at one instant)."""
@@ -1835,15 +1867,42 @@ def execute(plan, focus, trace=False):
         sys.stdout = io.StringIO()
         settings.PRINT_EVENTS = True
         try:
-            Exec(plan, ctx).run()
+            Exec(_with_symbol_objects(plan, ctx), ctx).run()
         finally:
             settings.PRINT_EVENTS = False
             sys.stdout = real_out
         ctx.probe("run_with_print_events_on")
         return ctx
-    ex = Exec(plan, ctx)
+    ex = Exec(_with_symbol_objects(plan, ctx), ctx)
     ex.run()
     return ctx
+
+
+def _with_symbol_objects(plan, ctx):
+    """Asset symbols handed over as str SUBCLASSES: members of a str-mixin Enum (equal to and hashing like their
+    value, but str() of them is 'Sym.A0') or numpy.str_ objects.  The plan itself stays plain JSON."""
+    mode = plan["cfg"].get("sym_mode")
+    if not mode:
+        return plan
+    import copy
+    plan = copy.deepcopy(plan)
+    cfg = plan["cfg"]
+    names = sorted(set(cfg["assets"]) | set(op["asset"] for op in plan["ops"] if "asset" in op))
+    if mode == "enum":
+        from enum import Enum
+        Sym = Enum("Sym", dict(("A%d" % i, a) for i, a in enumerate(names)), type=str, module=__name__)
+        globals()["Sym"] = Sym          # picklable by reference, like an Enum defined in a user's module
+        obj = dict((a, Sym(a)) for a in names)
+    else:
+        import numpy as np
+        obj = dict((a, np.str_(a)) for a in names)
+    cfg["assets"] = [obj[a] for a in cfg["assets"]]
+    cfg["quotes0"] = dict((obj[a], q) for a, q in cfg["quotes0"].items())
+    for op in plan["ops"]:
+        if "asset" in op:
+            op["asset"] = obj[op["asset"]]
+    ctx.probe("symbols_are_str_subclass_" + mode)
+    return plan
 
 
 # ---------------------------------------------------------------------------
